@@ -60,10 +60,13 @@ FixedMats == << RInt(MRot90(1)), RInt(MRot90(2)), RInt(MRot90(3)), RInt(MSc(2,1)
                 RPyth(1), RPyth(2), RPyth(3), RPyth(4),
                 RMul(RPyth(1), RInt(MSc(1,-1))), RMul(RPyth(2), RInt(MSc(2,1))), RMul(RInt(MSc(1,2)), RPyth(1)), RMul(RInt(MSh(1,0)), RPyth(3)),
                 RMul(RPyth(1), RPyth(1)), RMul(RInt(MTr(3,1)), RPyth(2)), RMul(RPyth(4), RInt(MSc(-1,1))), RMul(RInt(<<2,1,0,1,1,0>>), RPyth(1)),
-                RNorm(<<1,0,0,0,1,0>>, 2), RNorm(<<3,0,0,0,1,0>>, 2), RNorm(<<1,1,0,-1,1,0>>, 2), RNorm(<<2,0,1,0,-2,1>>, 5) >>
+                RNorm(<<1,0,0,0,1,0>>, 2), RNorm(<<3,0,0,0,1,0>>, 2), RNorm(<<1,1,0,-1,1,0>>, 2), RNorm(<<2,0,1,0,-2,1>>, 5),
+                \* large and tiny uniform magnifications combined with a rotation / shear (entries 49-52)
+                RNorm(<<2048,-1536,0,1536,2048,0>>, 5), RNorm(<<4,-3,0,3,4,0>>, 2560), RInt(<<400,-300,7,300,400,-3>>),
+                RNorm(<<2,1,0,0,1,0>>, 1024) >>
 Ent == -3..3
 MatChoice == IF MatMode = "one" THEN {RId} ELSE IF MatMode = "fixed" THEN {FixedMats[i] : i \in 1..Len(FixedMats)}
-             ELSE IF MatMode = "few" THEN {FixedMats[i] : i \in {1, 5, 10, 13, 17, 26, 33, 37, 44}}
+             ELSE IF MatMode = "few" THEN {FixedMats[i] : i \in {1, 5, 10, 13, 17, 26, 33, 37, 44, 49, 50}}
              ELSE {RInt(<<t[1], t[2], t[5], t[3], t[4], t[6]>>) : t \in {u \in RandomSubset(60, [1..6 -> Ent]) : u[1] * u[4] - u[2] * u[3] # 0}}
 
 SC == 2
